@@ -277,6 +277,9 @@ def read_job_dir(wd):
                 files[rel] = "<symbolic link leaving the job directory: %s>" % os.path.relpath(
                     os.path.realpath(full), os.path.dirname(os.path.realpath(wd)))
                 continue
+            if os.path.islink(full) and not os.path.exists(full):
+                files[rel] = "<dangling symbolic link>"
+                continue
             with open(full, "rb") as f:
                 data = f.read()
             if rel == SP_FILE:
@@ -740,7 +743,7 @@ KNOWN_TEXT = {
     "F-3c": "pickle round trip of a handle that shares its state point object with a shallow copy raises "
             "RecursionError while unpickling (Job.__setstate__ runs before the shared object is restored)",
 }
-MUTATING_OTHERS = ("remove", "spset", "spdel", "spnest", "spassign", "update", "move", "clear", "reset")
+MUTATING_OTHERS = ("remove", "spset", "spdel", "spnest", "spassign", "update", "move")
 
 
 def _noraw(jobs):
@@ -799,6 +802,10 @@ def _valid(op, pm):
     k = op[0]
     if k in ("open", "openid", "ucache", "rmcache", "session", "plant", "drop"):
         return True
+    if k == "putlink" and op[1] in pm.h:
+        # the link's target must be a file of the job with the stated content (a shrunk history may have lost it)
+        j = pm._job(op[1])
+        return j is not None and j["files"].get(op[3]) == op[4]
     return op[1] in pm.h
 
 
@@ -821,7 +828,7 @@ def lockstep(ops, ctx, nproj=2, check_handles=True, stop_at_first=True):
             for p_ in range(nproj):
                 ever[p_] |= set(pm.projects[p_])
             if not _valid(op, pm):
-                records.append({"op": op, "skipped": "undefined-handle"})
+                records.append({"op": op, "skipped": "undefined-operand"})
                 continue
             if op[0] not in ("open", "openid", "ucache", "rmcache", "session", "plant") and op[1] in tainted:
                 # beyond a recorded finding (F-3d): the handle is inconsistent, nothing is claimed about its use
